@@ -799,7 +799,7 @@ theorem run_fifo (c : Cfg) (ops : List Op) : Fifo c (run c ops) := by
     · exact h hm
     · split
       · exact h hm
-      · have := h hm; simp [hne, accept, evPut, evStart, this]
+      · have := h hm; simp [accept, evPut, evStart, this]
 
 
 /-! ### cancel mode: whatever is cancelled (run or queued item) has a newer accepted put before it -/
@@ -1064,5 +1064,780 @@ theorem run_cancInv (c : Cfg) (ops : List Op) : CancInv (run c ops) := by
       (fun e he => he) hQ, hsd, hc⟩
   · intro s x h _; exact accept_cancInv s x h
   · exact doStop_cancInv c
+
+
+/-! ### guard time: a run starts no earlier than guard after the previous coroutine was over -/
+
+def evOver : Ev → Bool
+  | .done _ => true
+  | .cancelled _ => true
+  | _ => false
+
+/-- every coroutine end in the log is `g` in the past, or its run is still in its guard sleep -/
+def G2 (g : Nat) (s : State) : Prop :=
+  ∀ t1 e, (t1, e) ∈ s.log → evOver e = true →
+    t1 + g ≤ s.now ∨ ∃ r ∈ s.runs, r.coro = false ∧ t1 + g ≤ r.till
+
+/-- newest first: each start is at least `g` after every earlier coroutine end -/
+def SepOK (g : Nat) : List (Nat × Ev) → Prop
+  | [] => True
+  | (t, e) :: l => (∀ k, e = Ev.start k → ∀ t1 e1, (t1, e1) ∈ l → evOver e1 = true → t1 + g ≤ t) ∧ SepOK g l
+
+def GInv (c : Cfg) (s : State) : Prop :=
+  G2 c.guard s ∧ (c.mode ≠ Mode.start → SepOK c.guard s.log)
+
+theorem g2_step {g : Nat} {s s' : State}
+    (hlog : ∀ t1 e, (t1, e) ∈ s'.log → evOver e = true →
+      (t1, e) ∈ s.log ∨ t1 + g ≤ s'.now ∨ ∃ r ∈ s'.runs, r.coro = false ∧ t1 + g ≤ r.till)
+    (hnow : s.now ≤ s'.now)
+    (hruns : ∀ r ∈ s.runs, r.coro = false → r ∈ s'.runs ∨ r.till ≤ s'.now)
+    (h : G2 g s) : G2 g s' := by
+  intro t1 e hm ho
+  rcases hlog t1 e hm ho with hold | hnew
+  · rcases h t1 e hold ho with h1 | ⟨r, hr, hc, ht⟩
+    · left; omega
+    · rcases hruns r hr hc with h2 | h2
+      · right; exact ⟨r, h2, hc, ht⟩
+      · left; omega
+  · exact hnew
+
+theorem sepOK_cons_other {g : Nat} {t : Nat} {e : Ev} {l : List (Nat × Ev)} (he : evStart e = none)
+    (h : SepOK g l) : SepOK g ((t, e) :: l) := by
+  refine ⟨?_, h⟩
+  intro k hk; rw [hk] at he; simp [evStart] at he
+
+theorem discards_gInv (c : Cfg) (s : State) (j : Job) (q : List Job) (h : GInv c s) :
+    GInv c (discards s j q) := by
+  induction q generalizing s j with
+  | nil => exact h
+  | cons k q ih =>
+    apply ih
+    refine ⟨g2_step (s := s) ?_ (Nat.le_refl _) (fun r hr _ => Or.inl hr) h.1, fun hm => ?_⟩
+    · intro t1 e hm ho
+      simp at hm
+      rcases hm with ⟨_, rfl⟩ | hm
+      · simp [evOver] at ho
+      · exact Or.inl hm
+    · exact sepOK_cons_other rfl (h.2 hm)
+
+/-- starting a run when no run is active -/
+theorem startRun_gInv (c : Cfg) (s : State) (j : Job) (hr : s.runs = []) (h : GInv c s) :
+    GInv c (startRun s j) := by
+  have hall : ∀ t1 e, (t1, e) ∈ s.log → evOver e = true → t1 + c.guard ≤ s.now := by
+    intro t1 e hm ho
+    rcases h.1 t1 e hm ho with h1 | ⟨r, hrm, _⟩
+    · exact h1
+    · rw [hr] at hrm; cases hrm
+  refine ⟨g2_step (s := s) ?_ (Nat.le_refl _) (fun r hrm _ => by rw [hr] at hrm; cases hrm) h.1, fun hm => ?_⟩
+  · intro t1 e hm ho
+    simp at hm
+    rcases hm with ⟨_, rfl⟩ | ⟨_, rfl⟩ | hm
+    · simp [evOver] at ho
+    · simp [evOver] at ho
+    · exact Or.inl hm
+  · simp only [startRun_log]
+    refine ⟨?_, sepOK_cons_other rfl (h.2 hm)⟩
+    intro k _ t1 e1 hm1 ho
+    simp at hm1
+    rcases hm1 with ⟨_, rfl⟩ | hm1
+    · simp [evOver] at ho
+    · exact hall t1 e1 hm1 ho
+
+/-- start mode: only `G2` matters -/
+theorem startRun_g2 (g : Nat) (s : State) (j : Job) (h : G2 g s) : G2 g (startRun s j) := by
+  refine g2_step (s := s) ?_ (Nat.le_refl _) (fun r hrm _ => Or.inl (by simp [hrm])) h
+  intro t1 e hm ho
+  simp at hm
+  rcases hm with ⟨_, rfl⟩ | ⟨_, rfl⟩ | hm
+  · simp [evOver] at ho
+  · simp [evOver] at ho
+  · exact Or.inl hm
+
+theorem startAll_g2 (g : Nat) (s : State) (q : List Job) (h : G2 g s) : G2 g (startAll s q) := by
+  induction q generalizing s with
+  | nil => exact h
+  | cons j q ih => exact ih _ (startRun_g2 g s j h)
+
+theorem settle_gInv (c : Cfg) (s : State) (h : GInv c s) : GInv c (settle c s) := by
+  apply settle_cases
+  · exact h
+  · intro _ j q hr _
+    exact startRun_gInv c _ j hr ⟨fun t1 e hm ho => h.1 t1 e hm ho, h.2⟩
+  · intro _ j q hr _
+    apply startRun_gInv c _ _ (by simpa using hr)
+    apply discards_gInv
+    exact ⟨fun t1 e hm ho => h.1 t1 e hm ho, h.2⟩
+  · intro _ j q r rest _ hr hc
+    refine ⟨g2_step (s := s) ?_ (Nat.le_refl _) ?_ h.1, fun hm => ?_⟩
+    · intro t1 e hm ho
+      simp [cancelCur] at hm
+      rcases hm with ⟨_, rfl⟩ | ⟨rfl, rfl⟩ | hm
+      · simp [evOver] at ho
+      · right; right
+        exact ⟨_, by simp [cancelCur]; exact Or.inl rfl, rfl, Nat.le_refl _⟩
+      · exact Or.inl hm
+    · intro r0 hr0 hc0
+      rw [hr] at hr0
+      cases hr0 with
+      | head => rw [hc] at hc0; cases hc0
+      | tail _ hr0 => left; simp only [cancelCur]; exact List.mem_cons_of_mem _ hr0
+    · simp only [cancelCur, emit_log]
+      exact sepOK_cons_other rfl (sepOK_cons_other rfl (h.2 hm))
+  · intro hm
+    have h1 : G2 c.guard (startAll { s with queue := [] } s.queue) :=
+      startAll_g2 _ _ _ (fun t1 e hm ho => h.1 t1 e hm ho)
+    refine ⟨?_, fun hne => absurd hm hne⟩
+    unfold startStopData
+    split
+    · split
+      · exact startRun_g2 _ _ _ (fun t1 e hm ho => h1 t1 e hm ho)
+      · exact h1
+    · exact h1
+
+
+theorem evStart_result (r : Run) : evStart (if r.job.data.fail then Ev.err r.job else Ev.succ r.job) = none := by
+  cases r.job.data.fail <;> rfl
+theorem evOver_result (r : Run) : evOver (if r.job.data.fail then Ev.err r.job else Ev.succ r.job) = false := by
+  cases r.job.data.fail <;> rfl
+
+theorem fire_gInv (c : Cfg) (s : State) (t : Nat) (h : GInv c s) : GInv c (fire c s t) := by
+  apply fire_cases
+  · intro _; exact h
+  · -- coroutine end, guard sleep begins
+    intro a r b hrs _ hc _
+    refine ⟨g2_step (s := s) ?_ (by simp [afterCoro]; omega) ?_ h.1, fun hm => ?_⟩
+    · intro t1 e hm ho
+      simp [afterCoro] at hm
+      rcases hm with ⟨_, rfl⟩ | ⟨rfl, rfl⟩ | hm
+      · rw [evOver_result] at ho; cases ho
+      · right; right
+        exact ⟨⟨r.job, false, max s.now t + c.guard⟩, by simp, rfl, Nat.le_refl _⟩
+      · exact Or.inl hm
+    · intro r0 hr0 hc0
+      left
+      rw [hrs] at hr0
+      simp at hr0 ⊢
+      rcases hr0 with hr0 | hr0 | hr0
+      · exact Or.inl hr0
+      · rw [hr0, hc] at hc0; cases hc0
+      · exact Or.inr (Or.inr hr0)
+    · simp only [afterCoro, emit_log]
+      exact sepOK_cons_other (evStart_result r) (sepOK_cons_other rfl (h.2 hm))
+  · -- coroutine end without guard time: the run is over
+    intro a r b hrs _ hc hg
+    apply settle_gInv
+    refine ⟨g2_step (s := s) ?_ (by simp [afterCoro]; omega) ?_ h.1, fun hm => ?_⟩
+    · intro t1 e hm ho
+      simp [afterCoro] at hm
+      rcases hm with ⟨_, rfl⟩ | ⟨_, rfl⟩ | ⟨rfl, rfl⟩ | hm
+      · simp [evOver] at ho
+      · rw [evOver_result] at ho; cases ho
+      · right; left; simp [afterCoro, hg]
+      · exact Or.inl hm
+    · intro r0 hr0 hc0
+      left
+      rw [hrs] at hr0
+      simp at hr0 ⊢
+      rcases hr0 with hr0 | hr0 | hr0
+      · exact Or.inl hr0
+      · rw [hr0, hc] at hc0; cases hc0
+      · exact Or.inr hr0
+    · simp only [countDown_log, afterCoro, emit_log]
+      exact sepOK_cons_other rfl (sepOK_cons_other (evStart_result r) (sepOK_cons_other rfl (h.2 hm)))
+  · -- end of the guard sleep
+    intro a r b hrs ht hc
+    apply settle_gInv
+    refine ⟨g2_step (s := s) ?_ (by simp; omega) ?_ h.1, fun hm => ?_⟩
+    · intro t1 e hm ho
+      simp at hm
+      rcases hm with ⟨_, rfl⟩ | hm
+      · simp [evOver] at ho
+      · exact Or.inl hm
+    · intro r0 hr0 _
+      rw [hrs] at hr0
+      simp at hr0 ⊢
+      rcases hr0 with hr0 | hr0 | hr0
+      · exact Or.inl (Or.inl hr0)
+      · right; rw [hr0, ht]; omega
+      · exact Or.inl (Or.inr hr0)
+    · simp only [countDown_log]
+      exact sepOK_cons_other rfl (h.2 hm)
+
+theorem gInv_put (c : Cfg) (s s' : State) (j : Job) (hlog : s'.log = (s.now, Ev.put j) :: s.log)
+    (hnow : s'.now = s.now) (hruns : s'.runs = s.runs) (h : GInv c s) : GInv c s' := by
+  refine ⟨g2_step (s := s) ?_ (by omega) (fun r hr _ => Or.inl (by rw [hruns]; exact hr)) h.1, fun hm => ?_⟩
+  · intro t1 e hm ho
+    rw [hlog] at hm
+    simp at hm
+    rcases hm with ⟨_, rfl⟩ | hm
+    · simp [evOver] at ho
+    · exact Or.inl hm
+  · rw [hlog]; exact sepOK_cons_other rfl (h.2 hm)
+
+theorem run_gInv (c : Cfg) (ops : List Op) : GInv c (run c ops) := by
+  apply run_induction c (GInv c)
+  · exact ⟨by intro t1 e hm; simp at hm, fun _ => trivial⟩
+  · exact settle_gInv c
+  · exact fire_gInv c
+  · intro s t h
+    exact ⟨g2_step (s := s) (fun t1 e hm _ => Or.inl hm) (Nat.le_max_left _ _) (fun r hr _ => Or.inl hr) h.1, h.2⟩
+  · intro s x h _; exact gInv_put c s _ ⟨s.nacc, x⟩ rfl rfl rfl h
+  · intro s h
+    unfold doStop
+    split
+    · exact h
+    · split
+      · exact ⟨fun t1 e hm ho => h.1 t1 e hm ho, h.2⟩
+      · next d _ =>
+        split
+        · exact gInv_put c s _ ⟨s.nacc, d⟩ rfl rfl rfl h
+        · exact gInv_put c s _ ⟨s.nacc, d⟩ rfl rfl rfl h
+
+/-- `SepOK` in the form used by the property statement -/
+theorem sepOK_split {g : Nat} {log l1 l2 : List (Nat × Ev)} {t2 : Nat} {k : Job} (h : SepOK g log)
+    (hl : log = l1 ++ (t2, Ev.start k) :: l2) :
+    ∀ t1 e1, (t1, e1) ∈ l2 → evOver e1 = true → t1 + g ≤ t2 := by
+  induction l1 generalizing log with
+  | nil => subst hl; exact h.1 k rfl
+  | cons x l1 ih =>
+    subst hl
+    obtain ⟨t, e⟩ := x
+    exact ih h.2 rfl
+
+
+/-! ### wait and start mode never cancel -/
+
+def NoCancel (c : Cfg) (s : State) : Prop :=
+  c.mode ≠ Mode.cancel → ∀ t e, (t, e) ∈ s.log → evCancel e = none
+
+theorem noCancel_ext {c : Cfg} {s s' : State}
+    (hlog : ∀ t e, (t, e) ∈ s'.log → (t, e) ∈ s.log ∨ evCancel e = none) (h : NoCancel c s) : NoCancel c s' := by
+  intro hm t e hmem
+  rcases hlog t e hmem with h1 | h1
+  · exact h hm t e h1
+  · exact h1
+
+theorem startAll_noCancel (c : Cfg) (s : State) (q : List Job) (h : NoCancel c s) : NoCancel c (startAll s q) := by
+  induction q generalizing s with
+  | nil => exact h
+  | cons j q ih =>
+    apply ih
+    apply noCancel_ext _ h
+    intro t e hm; simp at hm
+    rcases hm with ⟨_, rfl⟩ | ⟨_, rfl⟩ | hm
+    · exact Or.inr rfl
+    · exact Or.inr rfl
+    · exact Or.inl hm
+
+theorem settle_noCancel (c : Cfg) (s : State) (h : NoCancel c s) : NoCancel c (settle c s) := by
+  apply settle_cases
+  · exact h
+  · intro _ j q _ _
+    apply noCancel_ext _ h
+    intro t e hm; simp at hm
+    rcases hm with ⟨_, rfl⟩ | ⟨_, rfl⟩ | hm
+    · exact Or.inr rfl
+    · exact Or.inr rfl
+    · exact Or.inl hm
+  · intro hm _ _ _ _ hne; exact absurd hm hne
+  · intro hm _ _ _ _ _ _ _ hne; exact absurd hm hne
+  · intro _
+    have h1 := startAll_noCancel c { s with queue := [] } s.queue (fun hm t e hmem => h hm t e hmem)
+    unfold startStopData
+    split
+    · split
+      · apply noCancel_ext _ h1
+        intro t e hm; simp at hm
+        rcases hm with ⟨_, rfl⟩ | ⟨_, rfl⟩ | hm
+        · exact Or.inr rfl
+        · exact Or.inr rfl
+        · exact Or.inl hm
+      · exact h1
+    · exact h1
+
+theorem evCancel_result (r : Run) : evCancel (if r.job.data.fail then Ev.err r.job else Ev.succ r.job) = none := by
+  cases r.job.data.fail <;> rfl
+
+theorem fire_noCancel (c : Cfg) (s : State) (t : Nat) (h : NoCancel c s) : NoCancel c (fire c s t) := by
+  apply fire_cases
+  · intro _; exact h
+  · intro a r b _ _ _ _
+    apply noCancel_ext _ h
+    intro t e hm; simp [afterCoro] at hm
+    rcases hm with ⟨_, rfl⟩ | ⟨_, rfl⟩ | hm
+    · exact Or.inr (evCancel_result r)
+    · exact Or.inr rfl
+    · exact Or.inl hm
+  · intro a r b _ _ _ _
+    apply settle_noCancel
+    apply noCancel_ext _ h
+    intro t e hm; simp [afterCoro] at hm
+    rcases hm with ⟨_, rfl⟩ | ⟨_, rfl⟩ | ⟨_, rfl⟩ | hm
+    · exact Or.inr rfl
+    · exact Or.inr (evCancel_result r)
+    · exact Or.inr rfl
+    · exact Or.inl hm
+  · intro a r b _ _ _
+    apply settle_noCancel
+    apply noCancel_ext _ h
+    intro t e hm; simp at hm
+    rcases hm with ⟨_, rfl⟩ | hm
+    · exact Or.inr rfl
+    · exact Or.inl hm
+
+theorem noCancel_put (c : Cfg) (s s' : State) (j : Job) (hlog : s'.log = (s.now, Ev.put j) :: s.log)
+    (h : NoCancel c s) : NoCancel c s' := by
+  apply noCancel_ext _ h
+  intro t e hm; rw [hlog] at hm; simp at hm
+  rcases hm with ⟨_, rfl⟩ | hm
+  · exact Or.inr rfl
+  · exact Or.inl hm
+
+theorem run_noCancel (c : Cfg) (ops : List Op) : NoCancel c (run c ops) := by
+  apply run_induction c (NoCancel c)
+  · intro _ t e hm; simp at hm
+  · exact settle_noCancel c
+  · exact fire_noCancel c
+  · intro s t h; exact h
+  · intro s x h _; exact noCancel_put c s _ ⟨s.nacc, x⟩ rfl h
+  · intro s h
+    unfold doStop
+    split
+    · exact h
+    · split
+      · exact fun hm t e hmem => h hm t e hmem
+      · next d _ =>
+        split
+        · exact noCancel_put c s _ ⟨s.nacc, d⟩ rfl h
+        · exact noCancel_put c s _ ⟨s.nacc, d⟩ rfl h
+
+
+/-! ### induction where timers fire and time passes only after the controller has run -/
+
+theorem run_induction_quiet (c : Cfg) (P : State → Prop) (h0 : P {})
+    (hsettle : ∀ s, P s → P (settle c s))
+    (hfire : ∀ s t, P s → Quiet c s → P (fire c s t))
+    (hnow : ∀ s t, P s → Quiet c s → P { s with now := max s.now t })
+    (haccept : ∀ s x, P s → s.stopped = false → P (accept s x))
+    (hstop : ∀ s, P s → P (doStop c s)) :
+    ∀ ops, P (run c ops) := by
+  have hadv : ∀ bound fuel s, P s → Quiet c s → P (advance c bound fuel s) := by
+    intro bound fuel
+    induction fuel with
+    | zero => intro s h _; exact h
+    | succ n ih =>
+      intro s h hq
+      simp only [advance]
+      split
+      · split
+        · exact ih _ (hfire _ _ h hq) (fire_quiet c s _ hq)
+        · exact h
+      · exact h
+  have hadvTo : ∀ bound s, P s → P (advanceTo c bound s) := by
+    intro bound s h
+    simp only [advanceTo]
+    have h2 := hadv bound (measure (settle c s)) _ (hsettle s h) (settle_quiet c s)
+    have hq2 := advance_quiet c bound (measure (settle c s)) _ (settle_quiet c s)
+    cases bound with
+    | none => exact h2
+    | some b => exact hnow _ _ h2 hq2
+  have hstep : ∀ s op, P s → P (step c s op) := by
+    intro s op h
+    cases op with
+    | put t pre batch x =>
+      have h1 : P (if batch = true then s else advanceTo c (some (t, !pre)) s) := by
+        split
+        · exact h
+        · exact hadvTo _ _ h
+      show P (if (if batch = true then s else advanceTo c (some (t, !pre)) s).stopped = true
+        then _ else accept _ x)
+      generalize (if batch = true then s else advanceTo c (some (t, !pre)) s) = s1 at h1
+      by_cases hs : s1.stopped = true
+      · simp only [hs, if_true]; exact h1
+      · simp only [hs]; exact haccept _ _ h1 (by simpa using hs)
+    | stop t pre => exact hstop _ (hadvTo _ _ h)
+    | finish => exact hadvTo none _ h
+  intro ops
+  suffices ∀ s, P s → P (ops.foldl (step c) s) from this _ h0
+  induction ops with
+  | nil => intro s h; exact h
+  | cons op ops ih => intro s h; exact ih _ (hstep s op h)
+
+/-! ### start mode: every put starts its own run in the instant of its arrival -/
+
+/-- a put marker is either still queued in this very instant, or matched by a start at the same time,
+    or it is the stop_data job (the one accepted last, by `stop()`) -/
+def StartAt (c : Cfg) (s : State) : Prop :=
+  c.mode = Mode.start → ∀ t j, (t, Ev.put j) ∈ s.log →
+    (j ∈ s.queue ∧ t = s.now) ∨ (t, Ev.start j) ∈ s.log ∨
+    (s.stopped = true ∧ j.seq + 1 = s.nacc ∧ c.stopData = some j.data)
+
+theorem startAll_log (s : State) (q : List Job) :
+    (∀ e ∈ s.log, e ∈ (startAll s q).log) ∧ (∀ j ∈ q, (s.now, Ev.start j) ∈ (startAll s q).log) ∧
+    (∀ t j, (t, Ev.put j) ∈ (startAll s q).log → (t, Ev.put j) ∈ s.log) := by
+  induction q generalizing s with
+  | nil => exact ⟨fun e h => h, by simp, fun t j h => h⟩
+  | cons k q ih =>
+    obtain ⟨h1, h2, h3⟩ := ih (startRun s k)
+    refine ⟨fun e he => h1 e (by simp [he]), ?_, ?_⟩
+    · intro j hj
+      cases hj with
+      | head => exact h1 _ (by simp)
+      | tail _ hj => exact h2 j hj
+    · intro t j hm
+      have := h3 t j hm
+      simpa using this
+
+theorem startStopData_log (s : State) :
+    (∀ e ∈ s.log, e ∈ (startStopData s).log) ∧
+    (∀ t j, (t, Ev.put j) ∈ (startStopData s).log → (t, Ev.put j) ∈ s.log) ∧
+    (startStopData s).stopped = s.stopped ∧
+    (startStopData s).nacc = s.nacc ∧ (startStopData s).queue = s.queue ∧ (startStopData s).now = s.now := by
+  unfold startStopData
+  split
+  · split
+    · exact ⟨fun e he => by simp [he], fun t j hm => by simpa using hm, rfl, rfl, rfl, rfl⟩
+    · exact ⟨fun e he => he, fun t j hm => hm, rfl, rfl, rfl, rfl⟩
+  · exact ⟨fun e he => he, fun t j hm => hm, rfl, rfl, rfl, rfl⟩
+
+theorem settle_startAt (c : Cfg) (s : State) (h : StartAt c s) : StartAt c (settle c s) := by
+  apply settle_cases
+  · exact h
+  · intro hm _ _ _ _ hs; rw [hm] at hs; cases hs
+  · intro hm _ _ _ _ hs; rw [hm] at hs; cases hs
+  · intro hm _ _ _ _ _ _ _ hs; rw [hm] at hs; cases hs
+  · intro hm _ t j hput
+    obtain ⟨hl1, hl2, hl3⟩ := startAll_log { s with queue := [] } s.queue
+    obtain ⟨hs1, hs2, hs3, hs4, hs5, hs6⟩ := startStopData_log (startAll { s with queue := [] } s.queue)
+    have hold : (t, Ev.put j) ∈ s.log := hl3 t j (hs2 t j hput)
+    rcases h hm t j hold with ⟨hq, ht⟩ | hst | ⟨h1, h2, h3⟩
+    · right; left
+      apply hs1; rw [ht]; exact hl2 j hq
+    · right; left
+      exact hs1 _ (hl1 _ hst)
+    · right; right
+      rw [hs3, hs4]; simp [h1, h2, h3]
+
+theorem fire_startAt (c : Cfg) (s : State) (t : Nat) (h : StartAt c s) (hq : Quiet c s) :
+    StartAt c (fire c s t) := by
+  -- with an empty queue a put marker is matched or is stop_data; firing only appends to the log
+  have hbase : ∀ s' : State, (∀ e ∈ s.log, e ∈ s'.log) → (∀ t j, (t, Ev.put j) ∈ s'.log → (t, Ev.put j) ∈ s.log) →
+      s'.stopped = s.stopped → s'.nacc = s.nacc → StartAt c s' := by
+    intro s' hl1 hl2 hst hn hm t' j hput
+    rcases h hm t' j (hl2 t' j hput) with ⟨hjq, _⟩ | hs | ⟨h1, h2, h3⟩
+    · rw [(hq.2.2 hm).1] at hjq; cases hjq
+    · exact Or.inr (Or.inl (hl1 _ hs))
+    · exact Or.inr (Or.inr ⟨by rw [hst]; exact h1, by rw [hn]; exact h2, h3⟩)
+  apply fire_cases
+  · intro _; exact h
+  · intro a r b _ _ _ _
+    apply hbase
+    · intro e he; simp [afterCoro, he]
+    · intro t' j hm
+      simp [afterCoro] at hm
+      rcases hm with ⟨_, hm⟩ | hm
+      · cases hf : r.job.data.fail <;> simp [hf] at hm
+      · exact hm
+    · rfl
+    · rfl
+  · intro a r b _ _ _ _
+    apply settle_startAt
+    apply hbase
+    · intro e he; simp [afterCoro, he]
+    · intro t' j hm
+      simp [afterCoro] at hm
+      rcases hm with ⟨_, hm⟩ | hm
+      · cases hf : r.job.data.fail <;> simp [hf] at hm
+      · exact hm
+    · rfl
+    · rfl
+  · intro a r b _ _ _
+    apply settle_startAt
+    apply hbase
+    · intro e he; simp [he]
+    · intro t' j hm; simpa using hm
+    · rfl
+    · rfl
+
+theorem run_startAt (c : Cfg) (ops : List Op) : StartAt c (run c ops) := by
+  apply run_induction_quiet c (StartAt c)
+  · intro _ t j hm; simp at hm
+  · exact settle_startAt c
+  · exact fire_startAt c
+  · intro s t h hq hm t' j hput
+    rcases h hm t' j hput with ⟨hjq, _⟩ | hs | h3
+    · have : s.queue = [] := (hq.2.2 hm).1
+      rw [this] at hjq; cases hjq
+    · exact Or.inr (Or.inl hs)
+    · exact Or.inr (Or.inr h3)
+  · intro s x h hst hm t' j hput
+    simp [accept] at hput
+    rcases hput with ⟨rfl, rfl⟩ | hput
+    · left; simp [accept]
+    · rcases h hm t' j hput with ⟨hjq, ht⟩ | hs | ⟨h1, _, _⟩
+      · left; simp [accept, hjq, ht]
+      · right; left; simp [accept, hs]
+      · rw [hst] at h1; cases h1
+  · intro s h hm t' j hput
+    unfold doStop at hput ⊢
+    split at hput
+    · next hst => rw [if_pos hst]; exact h hm t' j hput
+    · next hst =>
+      rw [if_neg hst]
+      have hst' : s.stopped = false := by simpa using hst
+      cases hd : c.stopData with
+      | none =>
+        simp only [hd] at hput ⊢
+        rcases h hm t' j hput with h1 | h2 | ⟨h3, _, _⟩
+        · exact Or.inl h1
+        · exact Or.inr (Or.inl h2)
+        · rw [hst'] at h3; cases h3
+      | some d =>
+        simp only [hd, hm, if_true] at hput ⊢
+        simp at hput
+        rcases hput with ⟨rfl, rfl⟩ | hput
+        · right; right; simp
+        · rcases h hm t' j hput with h1 | h2 | ⟨h3, _, _⟩
+          · exact Or.inl (by simpa using h1)
+          · exact Or.inr (Or.inl (by simp [h2]))
+          · rw [hst'] at h3; cases h3
+
+
+/-! ### stop_data is processed last -/
+
+def evJob : Ev → Option Job
+  | .put _ => none
+  | .out _ => none
+  | .start j => some j
+  | .done j => some j
+  | .cancelled j => some j
+  | .succ j => some j
+  | .err j => some j
+  | .canc j => some j
+
+/-- the stop_data job `J` waits as the last queued item (wait/cancel) or in `stop_async` (start) -/
+def SdWaiting (c : Cfg) (J : Job) (s : State) : Prop :=
+  (c.mode ≠ Mode.start ∧ ∃ q0, s.queue = q0 ++ [J]) ∨ (c.mode = Mode.start ∧ s.sdPending = some J)
+
+/-- `J` has been started, nothing else is left, and whatever was logged since concerns `J` only -/
+def SdStarted (J : Job) (s : State) : Prop :=
+  s.queue = [] ∧ s.sdPending = none ∧ (∀ r ∈ s.runs, r.job = J) ∧
+  ∃ l1 t l2, s.log = l1 ++ (t, Ev.start J) :: l2 ∧ ∀ x ∈ l1, evJob x.2 = some J ∨ evJob x.2 = none
+
+def SdL (c : Cfg) (J : Job) (s : State) : Prop := SdWaiting c J s ∨ SdStarted J s
+
+theorem lastJob_append (j : Job) (q q0 : List Job) (J : Job) (h : j :: q = q0 ++ [J]) : lastJob j q = J := by
+  induction q generalizing j q0 with
+  | nil =>
+    cases q0 with
+    | nil => simp_all [lastJob]
+    | cons x q0 => simp at h
+  | cons k q ih =>
+    cases q0 with
+    | nil => simp at h
+    | cons x q0 => simp at h; simp only [lastJob]; exact ih k q0 h.2
+
+theorem sdStarted_ext {J : Job} {s s' : State} (hq : s'.queue = s.queue) (hsd : s'.sdPending = s.sdPending)
+    (hr : ∀ r' ∈ s'.runs, ∃ r ∈ s.runs, r'.job = r.job)
+    (hlog : ∃ l, s'.log = l ++ s.log ∧ ∀ x ∈ l, evJob x.2 = some J ∨ evJob x.2 = none)
+    (h : SdStarted J s) : SdStarted J s' := by
+  obtain ⟨h1, h2, h3, l1, t, l2, hl, hl1⟩ := h
+  obtain ⟨l, hl', hlJ⟩ := hlog
+  refine ⟨by rw [hq]; exact h1, by rw [hsd]; exact h2, ?_, l ++ l1, t, l2, by rw [hl', hl]; simp, ?_⟩
+  · intro r' hr'
+    obtain ⟨r, hrm, hj⟩ := hr r' hr'
+    rw [hj]; exact h3 r hrm
+  · intro x hx
+    rcases List.mem_append.mp hx with hx | hx
+    · exact hlJ x hx
+    · exact hl1 x hx
+
+theorem settle_sdL (c : Cfg) (J : Job) (s : State)
+    (hsd : SdInv c s) (h : SdL c J s) : SdL c J (settle c s) := by
+  apply settle_cases
+  · exact h
+  · -- wait: the head of the queue starts
+    intro hm j q hr hq
+    have hnone : s.sdPending = none := hsd.1 (by rw [hm]; simp)
+    rcases h with (⟨hne, q0, hq0⟩ | ⟨hms, _⟩) | hst
+    · rw [hq] at hq0
+      cases q0 with
+      | nil =>
+        simp at hq0
+        right
+        refine ⟨by simp [hq0.2], by simpa using hnone, ?_, [], s.now, _, by rw [hq0.1]; rfl, by simp⟩
+        intro r hrm; simp [hr] at hrm; rw [hrm]; exact hq0.1
+      | cons x q0 =>
+        simp at hq0
+        left; left
+        exact ⟨hne, q0, by simpa using hq0.2⟩
+    · rw [hm] at hms; cases hms
+    · rw [hst.1] at hq; cases hq
+  · -- cancel: drain, the last one starts
+    intro hm j q hr hq
+    have hnone : s.sdPending = none := hsd.1 (by rw [hm]; simp)
+    rcases h with (⟨hne, q0, hq0⟩ | ⟨hms, _⟩) | hst
+    · rw [hq] at hq0
+      have hJ := lastJob_append j q q0 J hq0
+      right
+      refine ⟨by simp, by simpa using hnone, ?_, [], _, _, by rw [hJ]; rfl, by simp⟩
+      intro r hrm; simp [hr] at hrm; rw [hrm]; exact hJ
+    · rw [hm] at hms; cases hms
+    · rw [hst.1] at hq; cases hq
+  · -- cancel: the current run is cancelled, the queue is untouched
+    intro hm j q r rest hq hr hc
+    rcases h with (⟨hne, q0, hq0⟩ | ⟨hms, _⟩) | hst
+    · left; left; exact ⟨hne, q0, by simpa [cancelCur] using hq0⟩
+    · rw [hm] at hms; cases hms
+    · rw [hst.1] at hq; cases hq
+  · -- start mode
+    intro hm
+    rcases h with (⟨hne, _⟩ | ⟨_, hp⟩) | hst
+    · exact absurd hm hne
+    · unfold startStopData
+      rw [startAll_sdPending]
+      simp only [hp]
+      split
+      · right
+        refine ⟨by simp, by simp, ?_, [], _, _, rfl, by simp⟩
+        intro r hrm
+        next hcond =>
+        simp at hcond
+        simp [hcond.2] at hrm
+        rw [hrm]
+      · left; right; exact ⟨hm, by simp⟩
+    · right
+      have hq : s.queue = [] := hst.1
+      have : startAll { s with queue := [] } s.queue = s := by
+        rw [hq]; simp only [startAll]
+        cases s; simp_all
+      rw [this]
+      unfold startStopData
+      simp only [hst.2.1]
+      exact hst
+
+
+theorem sdWaiting_ext {c : Cfg} {J : Job} {s s' : State} (hq : s'.queue = s.queue)
+    (hsd : s'.sdPending = s.sdPending) (h : SdWaiting c J s) : SdWaiting c J s' := by
+  rcases h with ⟨hne, q0, hq0⟩ | ⟨hm, hp⟩
+  · exact Or.inl ⟨hne, q0, by rw [hq]; exact hq0⟩
+  · exact Or.inr ⟨hm, by rw [hsd]; exact hp⟩
+
+theorem evJob_result (r : Run) : evJob (if r.job.data.fail then Ev.err r.job else Ev.succ r.job) = some r.job := by
+  cases r.job.data.fail <;> rfl
+
+theorem fire_sdL (c : Cfg) (J : Job) (s : State) (t : Nat) (hsd : SdInv c s) (h : SdL c J s) :
+    SdL c J (fire c s t) := by
+  apply fire_cases
+  · intro _; exact h
+  · intro a r b hrs _ _ _
+    rcases h with hw | hst
+    · exact Or.inl (sdWaiting_ext (s := s) rfl rfl hw)
+    · right
+      have hrJ : r.job = J := hst.2.2.1 r (by simp [hrs])
+      refine sdStarted_ext (s := s) rfl rfl ?_ ⟨[_, _], rfl, ?_⟩ hst
+      · intro r' hr'
+        simp at hr'
+        rcases hr' with hr' | hr' | hr'
+        · exact ⟨r', by simp [hrs, hr'], rfl⟩
+        · exact ⟨r, by simp [hrs], by rw [hr']⟩
+        · exact ⟨r', by simp [hrs, hr'], rfl⟩
+      · intro x hx
+        simp at hx
+        rcases hx with rfl | rfl
+        · left; simp only []; rw [evJob_result, hrJ]
+        · left; simp [evJob, hrJ]
+  · intro a r b hrs _ _ _
+    apply settle_sdL
+    · simpa [SdInv, afterCoro] using hsd
+    · rcases h with hw | hst
+      · exact Or.inl (sdWaiting_ext (s := s) rfl rfl hw)
+      · right
+        have hrJ : r.job = J := hst.2.2.1 r (by simp [hrs])
+        refine sdStarted_ext (s := s) rfl rfl ?_ ⟨[_, _, _], rfl, ?_⟩ hst
+        · intro r' hr'
+          simp at hr'
+          rcases hr' with hr' | hr'
+          · exact ⟨r', by simp [hrs, hr'], rfl⟩
+          · exact ⟨r', by simp [hrs, hr'], rfl⟩
+        · intro x hx
+          simp at hx
+          rcases hx with rfl | rfl | rfl
+          · right; rfl
+          · left; simp only []; rw [evJob_result, hrJ]
+          · left; simp [evJob, hrJ]
+  · intro a r b hrs _ _
+    apply settle_sdL
+    · simpa [SdInv] using hsd
+    · rcases h with hw | hst
+      · exact Or.inl (sdWaiting_ext (s := s) rfl rfl hw)
+      · right
+        refine sdStarted_ext (s := s) rfl rfl ?_ ⟨[_], rfl, ?_⟩ hst
+        · intro r' hr'
+          simp at hr'
+          rcases hr' with hr' | hr'
+          · exact ⟨r', by simp [hrs, hr'], rfl⟩
+          · exact ⟨r', by simp [hrs, hr'], rfl⟩
+        · intro x hx
+          simp at hx
+          rw [hx]; right; rfl
+
+/-- once stopped with stop_data `d`, the job accepted last (it carries `d`) waits or runs as the last one -/
+def SdLast (c : Cfg) (s : State) : Prop :=
+  s.stopped = true → ∀ d, c.stopData = some d → SdL c ⟨s.nacc - 1, d⟩ s
+
+theorem fire_stopped (c : Cfg) (s : State) (t : Nat) : (fire c s t).stopped = s.stopped := by
+  have hset : ∀ s : State, (settle c s).stopped = s.stopped := by
+    intro s
+    apply settle_cases c s (fun s' => s'.stopped = s.stopped)
+    · rfl
+    · intros; rfl
+    · intros; simp
+    · intros; rfl
+    · intro _; rw [(startStopData_log _).2.2.1]; simp
+  apply fire_cases c s t (fun s' => s'.stopped = s.stopped)
+  · intro _; rfl
+  · intros; rfl
+  · intros; unfold finishRun; rw [hset]; rfl
+  · intros; unfold finishRun; rw [hset]; rfl
+
+theorem settle_stopped (c : Cfg) (s : State) : (settle c s).stopped = s.stopped := by
+  apply settle_cases c s (fun s' => s'.stopped = s.stopped)
+  · rfl
+  · intros; rfl
+  · intros; simp
+  · intros; rfl
+  · intro _; rw [(startStopData_log _).2.2.1]; simp
+
+theorem run_sdLast (c : Cfg) (ops : List Op) : SdLast c (run c ops) := by
+  have := run_induction c (fun s => SdInv c s ∧ SdLast c s) ⟨by simp [SdInv], by intro h; cases h⟩
+    (fun s h => ⟨settle_sdInv c s h.1, by
+      intro hst d hd
+      rw [settle_stopped] at hst
+      rw [(settle_put c s).2]
+      exact settle_sdL c _ s h.1 (h.2 hst d hd)⟩)
+    (fun s t h => ⟨fire_sdInv c s t h.1, by
+      intro hst d hd
+      rw [fire_stopped] at hst
+      rw [(fire_put c s t).2]
+      exact fire_sdL c _ s t h.1 (h.2 hst d hd)⟩)
+    (fun s t h => ⟨h.1, by
+      intro hst d hd
+      rcases h.2 hst d hd with hw | hs
+      · exact Or.inl (sdWaiting_ext (s := s) rfl rfl hw)
+      · exact Or.inr (sdStarted_ext (s := s) rfl rfl (fun r' hr' => ⟨r', hr', rfl⟩) ⟨[], rfl, by simp⟩ hs)⟩)
+    (fun s x h hns => ⟨by simpa [SdInv, accept] using h.1, by
+      intro hst; simp [accept, hns] at hst⟩)
+    (fun s h => ⟨doStop_sdInv c s h.1, by
+      unfold doStop
+      split
+      · exact h.2
+      · next hns =>
+        intro _ d hd
+        simp only [hd]
+        split
+        · next hm => left; right; exact ⟨hm, by simp⟩
+        · next hm => left; left; exact ⟨hm, s.queue, by simp [accept]⟩⟩) ops
+  exact this.2
 
 end Edzed.OutputAsync
